@@ -305,6 +305,10 @@ func damageArtefact(raw []byte, fmtName string, toks []sealedTok, dmg []ctnDamag
 				raw = append(append(append([]byte{}, raw[:blocks[k].start]...), append(buf[:n:n], sec...)...), raw[blocks[k].end:]...)
 			case "truncated":
 				raw = append([]byte{}, raw[:(blocks[k].dataStart+blocks[k].end)/2]...)
+			case "truncprefix":
+				raw = append([]byte{}, raw[:blocks[k].cidStart]...)
+			case "trunccid":
+				raw = append([]byte{}, raw[:(blocks[k].cidStart+blocks[k].dataStart)/2]...)
 			case "zerolen":
 				raw = append(append(append([]byte{}, raw[:blocks[k].start]...), 0), raw[blocks[k].start:]...)
 			case "oversize":
@@ -562,14 +566,15 @@ func (f *faultReader) Read(p []byte) (int, error) {
 }
 
 type faultWriter struct {
-	buf    bytes.Buffer
-	calls  int
-	failAt int // 1-based call index; 0: never
+	buf     bytes.Buffer
+	calls   int
+	failAt  int  // 1-based call index; 0: never
+	oneShot bool // only that call fails (a transient fault); otherwise the writer stays broken
 }
 
 func (f *faultWriter) Write(p []byte) (int, error) {
 	f.calls++
-	if f.failAt != 0 && f.calls >= f.failAt {
+	if f.failAt != 0 && (f.calls == f.failAt || (!f.oneShot && f.calls > f.failAt)) {
 		return 0, errInjected
 	}
 	return f.buf.Write(p)
@@ -793,13 +798,13 @@ func init() {
 					}
 					rep.nontrivial(fmt.Sprintf("%s/w%d", key, k))
 				}
-				fw := &faultWriter{failAt: k}
+				fw := &faultWriter{failAt: k, oneShot: c.W%2 == 0}
 				id, err := a.writeTo(fw)
 				// the container writers iterate a Go map: the number of underlying writes can differ from
 				// run to run; make sure the fault really fired (else aim at the last write of this run)
 				for tries := 0; k != 0 && err == nil && fw.calls < k && tries < 8; tries++ {
 					k = fw.calls
-					fw = &faultWriter{failAt: k}
+					fw = &faultWriter{failAt: k, oneShot: c.W%2 == 0}
 					id, err = a.writeTo(fw)
 				}
 				if k != 0 && err == nil && fw.calls < k {
@@ -934,7 +939,26 @@ func init() {
 				if n > 0 {
 					step = 1 + len(a.data)/n
 				}
-				for off := 0; off <= len(a.data); off += step {
+				// in the sampled mode every offset near a structural position is included as well
+				near := map[int]bool{}
+				marks := append([]int{}, a.bounds...)
+				if s.kind == "car" {
+					if _, bl, err := parseCar(plain); err == nil {
+						for _, b := range bl {
+							marks = append(marks, b.start, b.cidStart, b.dataStart, b.end)
+						}
+					}
+				}
+				for _, mk := range marks {
+					e, _ := a.encOffset(mk)
+					for d := -5; d <= 5; d++ {
+						near[e+d] = true
+					}
+				}
+				for off := 0; off <= len(a.data); off++ {
+					if off%step != 0 && !near[off] {
+						continue
+					}
 					for _, kind := range []string{"err", "eof"} {
 						if kind == "eof" && off == len(a.data) {
 							continue
@@ -973,12 +997,14 @@ func init() {
 					return err
 				}
 				for k := 1; k <= cnt.calls+1; k++ {
-					fw := &faultWriter{failAt: k}
-					_, werr := a.writeTo(fw)
-					if werr == nil && fw.calls < k {
-						continue // this run needed fewer writes (map iteration order): the fault never fired
+					for _, one := range []bool{false, true} {
+						fw := &faultWriter{failAt: k, oneShot: one}
+						_, werr := a.writeTo(fw)
+						if werr == nil && fw.calls < k {
+							continue // this run needed fewer writes (map iteration order): the fault never fired
+						}
+						emit(map[string]any{"ev": "WriteFault", "art": s.kind, "b64": s.b64, "writes": fw.calls, "k": k, "oneshot": one, "failed": werr != nil})
 					}
-					emit(map[string]any{"ev": "WriteFault", "art": s.kind, "b64": s.b64, "writes": fw.calls, "k": k, "failed": werr != nil})
 				}
 			}
 		}
